@@ -279,6 +279,19 @@ type c07H2Peer struct {
 	ln      net.Listener
 	mu      sync.Mutex
 	scripts map[string]c07Script
+	conns   []net.Conn
+}
+
+// closeAll tears down every connection the peer still holds (so that floods started by one
+// lane do not keep the process busy during the next lane's idle-CPU measurement).
+func (p *c07H2Peer) closeAll() {
+	p.ln.Close()
+	p.mu.Lock()
+	for _, c := range p.conns {
+		c.Close()
+	}
+	p.conns = nil
+	p.mu.Unlock()
 }
 
 func newC07H2Peer(t *testing.T) *c07H2Peer {
@@ -293,6 +306,9 @@ func newC07H2Peer(t *testing.T) *c07H2Peer {
 			if err != nil {
 				return
 			}
+			p.mu.Lock()
+			p.conns = append(p.conns, c)
+			p.mu.Unlock()
 			go p.serve(c)
 		}
 	}()
@@ -383,7 +399,7 @@ func TestVerif_C07_h2hostile(t *testing.T) {
 	s := verifh.New(t, "C07", "h2hostile",
 		"generated HTTP/2 frame sequences answering one request: odd SETTINGS, 1xx floods, DATA before HEADERS / on stream 0 / after END_STREAM, WINDOW_UPDATE 0 and overflow, PING/PRIORITY/RST/GOAWAY/PUSH_PROMISE/unknown frames with wrong sizes and streams, lying frame lengths, bad padding, split/interleaved/unterminated header blocks, garbage HPACK, pseudo-header misuse, upper-case and control-byte fields, content-length/content-encoding fuzz, trailers, byte mutation, cuts; x option sets; oracle: call returns resp-or-error within 15 s, no panic, no spin, client reusable; non-trivial = at least one fault tag")
 	peer := newC07H2Peer(t)
-	defer peer.ln.Close()
+	defer peer.closeAll()
 	base := "http://" + peer.ln.Addr().String()
 	dir := t.TempDir()
 	opts := c07Options()
@@ -505,9 +521,7 @@ func TestVerif_C07_h2hostile(t *testing.T) {
 		time.Sleep(50 * time.Millisecond)
 	}
 	g1 := runtime.NumGoroutine()
-	cpu0 := c07CPU()
-	time.Sleep(1 * time.Second)
-	cpu := c07CPU() - cpu0
+	cpu := c07IdleCPU()
 	s.Observe("idle-cpu", cpu < 600*time.Millisecond, "", true, "process CPU time during 1 s of idleness after the run", fmt.Sprintf("a goroutine is spinning: %v CPU in 1 s idle", cpu))
 	s.Observe("goroutines", g1 <= g0+8, "", true, fmt.Sprintf("goroutines before=%d after=%d", g0, g1), fmt.Sprintf("goroutines leaked: before=%d after=%d", g0, g1))
 	s.Finish()
@@ -519,7 +533,7 @@ func TestVerif_C07_h2budget(t *testing.T) {
 	s := verifh.New(t, "C07", "h2budget",
 		"endless HTTP/2 streams answering one request (1xx HEADERS forever, CONTINUATION forever, DATA forever on a stream nobody reads, DATA forever beyond content-length, header fields forever inside one huge block) with MaxHeaderListSize 64 KiB; oracle: the call (or the body read) fails and the client read at most a bounded number of bytes; every case non-trivial")
 	peer := newC07H2Peer(t)
-	defer peer.ln.Close()
+	defer peer.closeAll()
 	base := "http://" + peer.ln.Addr().String()
 	settings := c07Frame{-1, 4, 0, 0, nil}.bytes()
 	okHead := c07Frame{-1, 1, 0x4, 1, c07Hpack([2]string{":status", "200"})}.bytes()
